@@ -132,6 +132,29 @@ def run(ctx: Ctx):
                 known_only = {k: v for k, v in kw.items() if k in names and k != a}
                 ops.append({"op": "from_dict_pair", "kwargs": known_only, "pair": [a, b, 0.125], "shape": shape})
         cases.append({"kind": kind, "arglist": names, "ops": ops})
+    # ---------------- values carrying other names handed to an operation: refused, or bound by name - never by position
+    fcases = []
+    for i in range(4 if ctx.tier == "quick" else 40):
+        k = ctx.rng.randint(2, 3)
+        nm = ctx.rng.sample(M.NAME_POOL, 2 * k + 4)
+        fcases.append({"own": nm[:k], "foreign": nm[k:2 * k], "s1": ["r_" + nm[2 * k], "r_" + nm[2 * k + 1]], "s2": ["r_" + nm[2 * k + 2], "r_" + nm[2 * k + 3]],
+                       "data": [M.rnd_point(ctx.rng) + 0.0078125 * (j + 1) for j in range(k)], "rdata": [M.rnd_point(ctx.rng), M.rnd_point(ctx.rng)],
+                       "diag": [ctx.rng.choice([0.5, 1.0, 2.0]) + 0.125 * j for j in range(k)]})
+    fr = ctx.run_impl("foreign_py.py", {"cases": fcases})
+    if "_error" in fr:
+        ctx.broken.append({"kind": "correspondence", "name": "foreign-name harness", "detail": fr["_error"]})
+    else:
+        for c, res_ in zip(fcases, fr["results"]):
+            ctx.count(["foreign", c], True, sample={"case": c, "result": res_})
+            for op, o in res_.items():
+                if isinstance(o["own"], dict):
+                    ctx.violation(f"{op}: an operation on its own named values raised {o['own']['err']}", {"case": c, "op": op, "observed": o}, key="own-named-value-refused")
+                elif isinstance(o["foreign"], list) and all(glue.close(a, b) for a, b in zip(o["foreign"], o["own"])):
+                    what = {"model": "a State generated for other state names", "process_state": "a State generated for other state names",
+                            "process_cov": "a Covariance generated for other state names", "sensor": "a Reading generated for another sensor's reading names"}[op]
+                    ctx.violation(f"{op}: {what} ({c['foreign'] if op != 'sensor' else c['s2']}) is accepted where {c['own'] if op != 'sensor' else c['s1']} "
+                                  f"is expected and its values are bound by position (result identical to passing the same numbers under the right names)",
+                                  {"case": c, "op": op, "observed": o}, key="foreign-names-bound-by-position")
     r = ctx.run_impl("named_py.py", {"cases": cases})
     kinds = {}
     if "_error" in r:
